@@ -276,6 +276,13 @@ def _arg_fresh_at_sites(p: Project, fname: str, argpos: int, allow_recursive_in:
         if allow_recursive_in and qn == allow_recursive_in:
             # recursion on a part of the (already admitted) argument
             continue
+        # mutual recursion: the call sits in a private helper that only the admitted function itself calls
+        # (indent -> _indent_parent -> indent(child)): still recursion on a part of the admitted argument
+        short0_ = qn.split(".")[-1]
+        if allow_recursive_in and short0_.startswith("_") and not short0_.startswith("__"):
+            hs_ = _call_sites(p, short0_)
+            if hs_ and all(q_.split(".")[-1] == allow_recursive_in or q_.split(".")[-1] == short0_ for _m, q_, _c, _f, _k in hs_):
+                continue
         # a private helper in between that merely hands its own parameter on: judged at ITS call sites
         short_ = qn.split(".")[-1]
         arg_ = call.args[argpos]
@@ -299,9 +306,16 @@ def _judged_at_call_sites(p: Project, ctx: "Ctx", w: Write, schema, depth: int =
     if not nested and not (name.startswith("_") and not name.startswith("__")):
         return False, ""
     root = root_name(w.target)
-    params = [a.arg for a in ctx.fn.args.args]
+    params = [a.arg for a in ctx.fn.args.args] + [a.arg for a in ctx.fn.args.kwonlyargs]
     if root not in params:
-        return False, ""
+        # a local that is (part of) a parameter: `last = parent` / `for child in parent: last = child`
+        node0 = ctx.cfg.node_of(w.stmt)
+        base0 = w.target.value if isinstance(w.target, (ast.Attribute, ast.Subscript)) else w.target
+        k0, why0 = classify_value(base0, node0, ctx) if node0 is not None else (None, None)
+        if k0 == "param" and why0 in params:
+            root = why0
+        else:
+            return False, ""
     pos = params.index(root)
     sites = [s_ for s_ in _call_sites(p, name) if s_[0] == ctx.modname]
     if not sites:
@@ -409,6 +423,38 @@ def triage(ctx: Ctx, w: Write, kind: str, why: str, schema: Schema):
                         fresh = bool(vals_) and all(isinstance(e, (ast.List, ast.Dict, ast.Constant, ast.UnaryOp)) and not getattr(e, "elts", None) and not getattr(e, "keys", None) for e in vals_)
         sites = [s for s in _call_sites(p, inner.name)]
         return fresh and not sites, "accumulator of functools.reduce, whose initial value is a fresh literal; no other call site" if fresh and not sites else f"accumulator not provably fresh (initial={ast.unparse(init) if init is not None else None}, other call sites={len(sites)})"
+    # 3b. the reducer as a module-level function, handed to functools.reduce by name or through functools.partial(f, <bound
+    #     arguments>): the accumulator is the first parameter left unbound; same side conditions (fresh initial value, no
+    #     other call site)
+    if kind == "param" and isinstance(ctx.fn, ast.FunctionDef):
+        fname_ = ctx.fn.name
+        m_ = p.module(mod)
+        for outer_ in [f_ for _q, _c, f_ in m_.functions()]:
+            for rc_ in ast.walk(outer_):
+                if not (isinstance(rc_, ast.Call) and dotted(rc_.func) in ("functools.reduce", "reduce") and len(rc_.args) >= 3):
+                    continue
+                r0 = rc_.args[0]
+                nbound = None
+                if isinstance(r0, ast.Name) and r0.id == fname_:
+                    nbound = 0
+                elif isinstance(r0, ast.Name):
+                    for st_ in ast.walk(outer_):
+                        if isinstance(st_, ast.Assign) and len(st_.targets) == 1 and isinstance(st_.targets[0], ast.Name) and st_.targets[0].id == r0.id and isinstance(st_.value, ast.Call) and dotted(st_.value.func) in ("functools.partial", "partial") and st_.value.args and isinstance(st_.value.args[0], ast.Name) and st_.value.args[0].id == fname_ and not st_.value.keywords:
+                            nbound = len(st_.value.args) - 1
+                elif isinstance(r0, ast.Call) and dotted(r0.func) in ("functools.partial", "partial") and r0.args and isinstance(r0.args[0], ast.Name) and r0.args[0].id == fname_ and not r0.keywords:
+                    nbound = len(r0.args) - 1
+                if nbound is None:
+                    continue
+                ps_ = [a.arg for a in ctx.fn.args.args]
+                if nbound >= len(ps_) or why != ps_[nbound]:
+                    continue
+                init_ = rc_.args[2]
+                parts_ = (list(init_.args) + [k.value for k in init_.keywords]) if isinstance(init_, ast.Call) else (list(init_.elts) if isinstance(init_, ast.Tuple) else None)
+                fresh_ = parts_ is not None and bool(parts_) and all(isinstance(e, (ast.List, ast.Dict, ast.Constant, ast.UnaryOp)) and not getattr(e, "elts", None) and not getattr(e, "keys", None) for e in parts_)
+                direct_ = [s_ for s_ in _call_sites(p, fname_) if not (isinstance(s_[4].func, ast.Attribute) and s_[4].func.attr == "partial")]
+                others_ = [s_ for s_ in direct_ if s_[4] is not rc_ and not any(s_[4] is a_ for a_ in ast.walk(rc_))]
+                if fresh_ and not others_:
+                    return True, "accumulator of functools.reduce (reducer passed by name / through functools.partial), whose initial value is a fresh literal; no other call site"
     # 4. _listAppend(root, member): root allocated by the caller
     if mod == BASE and qn.endswith("._listAppend") and kind == "param":
         ok, reason = _arg_fresh_at_sites(p, "_listAppend", 0)
